@@ -208,6 +208,48 @@ CLAIMED = {
                 'reached), as wait_tasks documents.',
  },
 
+ 'C16': {
+  'engine'    : 'bfs',
+  'category'  : 'model_checking',
+  'design_ref': 'DESIGN.md 4 (C16), A.8',
+  'technique' : 'explicit-state search over all delivery orders of an '
+                'in-memory pubsub network running the real forwarder closures',
+  'text'      : 'For one client and 1-2 (thorough 3) pilots a bare Session per '
+                'side runs the REAL Session._crosswire_proxy(); the resulting '
+                'pubsub_fwd closures are wired to an in-memory network with one '
+                'FIFO per (publisher, subscriber) pair.  For every history of '
+                '1-2 messages over (control|state) x originating side x fwd '
+                '{absent, False, True} x origin {absent, self, other side, '
+                'unknown} BFS explores every delivery order; per-side '
+                'application delivery counts must equal the reference (every '
+                'other side exactly once iff forwarded, never twice, never back '
+                'to the origin) in every state and at quiescence; the search '
+                'must close (no circulation).',
+  'note'      : 'Reliable FIFO delivery per publisher/subscriber pair; message '
+                'loss, ZMQ slow joiners and the real proxy service are outside.',
+ },
+
+ 'C17': {
+  'engine'    : 'enum',
+  'category'  : 'exploration',
+  'design_ref': 'DESIGN.md 4 (C17), A.11',
+  'technique' : 'exhaustive enumeration of all shipped configurations x '
+                'schemas x a bounded grid of pilot sizes through the real '
+                'resolution and sizing code against plain arithmetic',
+  'text'      : 'All 63 shipped platforms x all their access schemas go '
+                'through the real Session.get_resource_config; resource '
+                'manager, launch methods (and order), agent scheduler, spawner '
+                'and agent config are resolved by calling the real factories '
+                'with constructors stubbed; every pilot size of a grid (nodes, '
+                'or cores around node-size boundaries x GPUs, backup nodes, '
+                'SMT incl. RADICAL_SMT) goes through the real '
+                '_start_pilot_bulk/_prepare_pilot and the job description and '
+                'written agent_0.cfg are compared with independent integer '
+                'arithmetic on the raw config values.',
+  'note'      : 'Stops at the job description (no batch submission); shell '
+                'expansion of workdir strings is treated as environment.',
+ },
+
  'C18': {
   'engine'    : 'enum',
   'category'  : 'exploration',
